@@ -13,7 +13,7 @@ from ..engine.sqlfront import all_where_clauses, identifiers, split_conjuncts
 from . import C13
 from . import C12
 from . import shared
-from .common import callee_name, calls_in, kwarg
+from .common import callee_name, calls_in, kwarg, norm_record_events
 
 EXPLANATION = (
     "Static analysis of the input-availability and freshness mechanisms. The shared 'blocked input' predicate is "
@@ -121,6 +121,7 @@ def rule_hash_before_after(ctx):
         ov = {"len(run.unavailable) > 0 or len(run.unfresh) > 0": wants, "run.success": succ}
         fp = finite.feasible_paths(ctx.prog, ce, {"unexpected_input_changes": unexp}, ov)
         for tr, status in fp:
+            tr = norm_record_events(ctx.prog, tr)
             nulls = any(e[0] == "assign" and e[1] == "new_hash" and e[2] == "None" for e in tr)
             wd_false = any(e[0] == "assign" and e[1] == "wants_defer" and e[2] == "False" for e in tr)
             upd = any(e[0] == "call" and e[1].endswith("update_file_hashes") and "HashUpdateCause.FAILED" in ast.unparse(e[2]) for e in tr)
@@ -146,6 +147,7 @@ def rule_hash_before_after(ctx):
             ret_none = any(e[0] == "return" and "None" in e[1] for e in tr)
             ctx.check(fin and ret_none, nr.fq, "failed input re-hash finalizes the run as failed and returns no hash", "a failed input re-hash is not recorded as failure", "finalized")
             if ("unexpected_input_changes", True) in tests:
+                tr = norm_record_events(ctx.prog, tr)
                 upd = any(e[0] == "call" and e[1].endswith("update_file_hashes") and "FAILED" in ast.unparse(e[2]) for e in tr)
                 dr = any(e[0] == "call" and e[1].endswith("_drain_for_unexpected_input_changes") for e in tr)
                 ctx.check(upd and dr, nr.fq, "changed inputs are re-recorded and the scheduler drains", "changed inputs before the command do not stop dispatch", "update + drain")
@@ -158,7 +160,7 @@ def rule_hash_before_after(ctx):
         for tr, st in flow.paths_of(f2):
             tests = [(e[1], e[2]) for e in tr if e[0] == "test"]
             if ("new_hash is None", True) in tests[:1] or (tests and tests[0] == ("new_hash is None", True)):
-                later = [e for e in tr if e[0] == "call" and e[1].split(".")[-1] in ("mark_completed", "set_state", "update_file_hashes")]
+                later = [e for e in norm_record_events(ctx.prog, tr) if e[0] == "call" and e[1].split(".")[-1] in ("mark_completed", "set_state", "update_file_hashes")]
                 ctx.check(not later, fq, "a failed input re-hash ends the job without touching the step", "job continues after a failed input re-hash", "early return")
 
 
@@ -370,7 +372,7 @@ def rule_atomic_completion(ctx):
             if reg is None:
                 ctx.bad(fi.fq, "completion inside one transaction", "mark_completed outside `async with db`", where=ctx.where_of(fi))
                 continue
-            inside = tr[reg[0] + 1:reg[1]]
+            inside = norm_record_events(ctx.prog, tr[reg[0] + 1:reg[1]])
             names = [e[1].split(".")[-1] for e in inside if e[0] == "call"]
             need = ["_classify_execution", "update_file_hashes", "mark_completed", "record_run_stopped"]
             pos = [names.index(x) if x in names else None for x in need]
@@ -381,7 +383,8 @@ def rule_atomic_completion(ctx):
         raise AnalysisError("execute_job no longer calls mark_completed")
     src = _norm(ast.unparse(fi.node))
     ctx.check("self.scheduler.record_run_stopped(step.i, succeeded=new_hash is not None)" in src, fi.fq, "stop time recorded iff the step succeeded", "record_run_stopped argument changed", "succeeded=new_hash is not None")
-    ctx.check("cause=HashUpdateCause.SUCCEEDED if run.success else HashUpdateCause.FAILED" in src, fi.fq, "output hash cause follows run.success", "cause selection changed", "ok")
+    causes = {ast.unparse(kwarg(e[2], "cause")) for tr, st in flow.paths_of(fi) for e in norm_record_events(ctx.prog, tr) if e[0] == "call" and e[1].endswith("update_file_hashes") and kwarg(e[2], "cause") is not None}
+    ctx.check("HashUpdateCause.SUCCEEDED if run.success else HashUpdateCause.FAILED" in causes, fi.fq, "output hash cause follows run.success", "cause selection changed", "ok")
 
 
 def rule_amend_classification(ctx):
@@ -609,3 +612,6 @@ VARIANTS = [
     Variant("after-baseline-update-form", "executor.py", in_function("Executor._compute_full_step_hash", replace_once('            inp_hashes = {}\n            for rec in run.step.inp_paths():\n                if rec.path in run.start_inp_hashes:\n                    inp_hashes[rec.path] = run.start_inp_hashes[rec.path]\n                elif rec.state in (FileState.BUILT, FileState.CONFIRMED):\n                    inp_hashes[rec.path] = rec.hash\n', "            inp_hashes = {rec.path: rec.hash for rec in run.step.inp_paths() if rec.state in (FileState.BUILT, FileState.CONFIRMED)}\n            current = {rec.path for rec in run.step.inp_paths()}\n            inp_hashes.update({p: h for p, h in run.start_inp_hashes.items() if p in current})\n"))),
     Variant("availability-rewritten", "workflow.py", in_function("_SupplyInfo.availability", replace_once("        if self.state in (FileState.BUILT, FileState.CONFIRMED):", "        if self.state in (FileState.CONFIRMED, FileState.BUILT):"))),
 ]
+
+# a sketch of the F63/F64 repair (recording through state-selecting helpers): no rule of this property may alarm on it
+VARIANTS += [shared.REPAIR_SKETCH_F63]
